@@ -1221,3 +1221,121 @@ def chk_enumerators(ctx, m, cfg):
 
 
 INDEXOPS["enumerators"] = (chk_enumerators, ["C03"])
+
+
+# ====================================================================== child position = rank in index order (C13)
+def _ls_equal(ls, allowed, const, lane_fn):
+    """the digit sum equals const + sum_j lane_fn(j, x_j) for every allowed input: None or (lane, x, got, expected)"""
+    if isinstance(ls, int):
+        ls = lanes.LS(ls - (1 << 64) if ls >> 63 else ls, {})
+    if isinstance(ls, LV):
+        ls = lanes.lv_to_lf(ls)
+    if isinstance(ls, lanes.LF):
+        ls = lanes.LS(0, {ls.lane: tuple((t - (1 << ls.width)) if t >> (ls.width - 1) else t for t in ls.tab)})
+    if not isinstance(ls, lanes.LS):
+        raise Shape("the stored position is not a sum of per-digit contributions")
+    total = ls.const - const
+    for j in range(NL):
+        t = ls.lanes.get(j, (0,) * 8)
+        ds = {x: t[x] - lane_fn(j, x) for x in allowed[j]}
+        vals = set(ds.values())
+        if len(vals) != 1:
+            base = ds[allowed[j][0]]
+            x = next(x for x in allowed[j] if ds[x] != base)
+            return (j, x, t[x], lane_fn(j, x))
+        total += vals.pop()
+    if total != 0:
+        return (-1, 0, ls.const, const)
+    return None
+
+
+def _pent_children(m_):
+    return 1 + 5 * (7 ** m_ - 1) // 6
+
+
+def _childpos_cases():
+    for c in range(16):
+        base = assume_field(free_lanes(), RES_OFF, RES_W, c)
+        for p in range(c + 1):
+            al = [list(a) for a in base]
+            for d in range(p + 1, c + 1):
+                al[15 - d] = list(range(7))
+            yield c, p, None, al                        # the parent is not a pentagon cell
+            alp = [list(a) for a in base]
+            for d in range(1, p + 1):
+                alp[15 - d] = [0]
+            al0 = [list(a) for a in alp]
+            for d in range(p + 1, c + 1):
+                al0[15 - d] = [0]
+            yield c, p, 0, al0                          # pentagon parent, the centre child chain
+            for k in range(p + 1, c + 1):
+                al = [list(a) for a in alp]
+                for d in range(p + 1, c + 1):
+                    al[15 - d] = [0] if d < k else (list(range(2, 7)) if d == k else list(range(7)))
+                yield c, p, k, al                       # pentagon parent, first non-zero digit at k
+
+
+def _childpos_case(args):
+    c, p, k, al = args
+    m = _WM
+    f = m.fn("cellToChildPos")
+    ck, pk, ok_ = f.arg_index("child"), f.arg_index("parentRes"), f.arg_index("out")
+    try:
+        ev = lanes.Evaluator(m, al)
+        ev.merge = True
+        ev.models["isPentagon"] = _ispent_model(k is not None)
+        # the internal re-validation of the computed position (NEVER(validateChildPos(..)): decided exhaustively by R-CFORM) is taken to pass;
+        # a position that differs from the rank is reported below in any case
+        ev.models["validateChildPos"] = lambda ev_, cargs, al_, inst: 0
+        a = [None] * len(f.args)
+        a[ck], a[pk], a[ok_] = LV.input(), p, lanes.argptr(ok_)
+        paths = ev.run("cellToChildPos", a)
+        if k is None:
+            const, fn = 0, (lambda j, x: x * 7 ** (c - (15 - j)) if p < 15 - j <= c else 0)
+        elif k == 0:
+            const, fn = 0, (lambda j, x: 0)
+        else:
+            const = _pent_children(c - k)
+            fn = (lambda j, x: ((x - 2) * 7 ** (c - k) if 15 - j == k else (x * 7 ** (c - (15 - j)) if k < 15 - j <= c else 0)))
+        for pth in paths:
+            wit = sum(pth.allowed[j][0] << (3 * j) for j in range(NL))
+            if not all((a_.kind == "nz" and lanes.lv_single_lane(a_.lv) is not None) for a_ in lanes.f_atoms(pth.cond, [])):
+                return 0, None, "childRes=%d parentRes=%d: a path condition over several digits remains" % (c, p)
+            if pth.ret != 0:
+                return 1, ("returns %s for a valid child" % pth.ret, wit, (c, p, k)), None
+            bad = _ls_equal(pth.stored(ok_), pth.allowed, const, fn)
+            if bad:
+                j, x, got, exp = bad
+                if j >= 0:
+                    wit = (wit & ~(7 << (3 * j))) | (x << (3 * j))
+                    msg = "digit %d = %d contributes %d to the position; its rank contribution is %d" % (15 - j, x, got, exp)
+                else:
+                    msg = "the position is offset by %d from the rank" % (got - exp)
+                return 1, (msg, wit, (c, p, k)), None
+    except Shape as e:
+        return 0, None, "childRes=%d parentRes=%d: %s" % (c, p, e)
+    return 1, None, None
+
+
+def chk_childpos(ctx, m, cfg):
+    fname = "cellToChildPos"
+    f = m.fn(fname)
+    text = ("for every valid child of a resolution-p cell: success and *out = its RANK among the children in index order - hexagon parent: the digits p+1..c read as a base-7 "
+            "number; pentagon parent with first non-zero digit v at k: (1 + 5(7^(c-k) - 1)/6) + (v - 2) 7^(c-k) + the digits after k as a base-7 number (the deleted 1 is skipped); "
+            "all-zero digits: 0.  With the iterator induction of C04 (cellToChildren lists the children in index order) position i is the i-th element")
+    results = _pmap(_childpos_case, list(_childpos_cases()), m)
+    for r in results:
+        if r[2]:
+            raise Shape(r[2])
+    bad = next((r[1] for r in results if r[1]), None)
+    n = sum(r[0] for r in results)
+    if bad:
+        msg, wit, (c, p, k) = bad
+        ctx.violation(RULE, "cellToChildPos:rank", "cellToChildPos(%s, parentRes=%d): %s; documented: %s" % (fmt_digits(wit), p, msg, text), f.where(),
+                      {"function": fname, "witness": "0x%x" % wit, "config": cfg})
+    else:
+        ctx.ok(RULE, {"function": fname, "cases": n, "config": cfg, "inputs_covered": "all valid children per (childRes, parentRes, pentagon family) case"},
+               "%s: %s (%d cases; per-digit contribution tables compared with the rank formula)" % (fname, text, n))
+
+
+INDEXOPS["child-pos"] = (chk_childpos, ["C13"])
